@@ -59,7 +59,26 @@ func gen(r *verifsim.Rng, tier string) (any, hx.Sched) {
 	if r.Intn(10) == 0 {
 		np = 4 + r.Intn(3)
 	}
-	for i := 0; i < np; i++ {
+	if r.Intn(25) == 0 {
+		// a long stream: state that only builds up after hundreds of operations
+		w.Level = "L1"
+		np = 1 + r.Intn(2)
+		maxSends = 0
+		for i := 0; i < np; i++ {
+			w.Producers = append(w.Producers, verifsim.Pick(r, []int{130, 260, 300, 520}))
+		}
+		w.Consumers = append(w.Consumers, -1)
+		if r.Intn(2) == 0 {
+			w.Consumers = append(w.Consumers, -1)
+		}
+		w.Closers, w.CloseAfter = 1, true
+		w.Cap = verifsim.Pick(r, []int{0, 1, 3, 8, 64, 128})
+		s := hx.SwarmSched(r, focus)
+		s.MeanGap = verifsim.Pick(r, []int64{10, 30, 100})
+		s.MaxSteps = 400000
+		return w, s
+	}
+	for i := 0; i < np && maxSends > 0; i++ {
 		w.Producers = append(w.Producers, 1+r.Intn(maxSends))
 	}
 	nc := r.Intn(4)
@@ -442,6 +461,31 @@ func evaluate(o *hx.Outcome, w *W, ops []op, res *verifsim.Result) {
 			o.Violate("C09/isclosed-false-after-close", "isClosed() invoked after close() returned said false")
 		}
 	}
+	// 2b. per-sender order as seen by ONE receiver: its own receives are
+	// sequential, so it must never get value k of a sender after value k+j of the
+	// same sender (sound for any number of consumers; covers histories too long
+	// for the linearizability checker)
+	lastSeen := map[string]int{} // "receiverTask|sender" -> highest index received
+	for _, p := range ops {
+		if p.Kind != "recv" || p.Ret == "pending" || p.Ret == "null" {
+			continue
+		}
+		i := strings.LastIndexByte(p.Ret, '-')
+		if i < 0 {
+			continue
+		}
+		idx := 0
+		if _, err := fmt.Sscan(p.Ret[i+1:], &idx); err != nil {
+			continue
+		}
+		key := fmt.Sprintf("%d|%s", p.Task, p.Ret[:i])
+		if prev, ok := lastSeen[key]; ok && idx < prev {
+			o.Violate("C09/out-of-order-per-sender", fmt.Sprintf("receiver task %d got %s after %s-%d: values of one sender out of order", p.Task, p.Ret, p.Ret[:i], prev))
+		}
+		if idx > lastSeen[key] || lastSeen[key] == 0 {
+			lastSeen[key] = idx
+		}
+	}
 	// 3. linearizability against the channel model
 	if len(res.Panics) == 0 {
 		switch checkLinearizable(ops, closedObserved) {
@@ -452,7 +496,14 @@ func evaluate(o *hx.Outcome, w *W, ops []op, res *verifsim.Result) {
 		}
 	}
 	// 4. liveness at final quiescence (no faults are in flight any more)
-	if len(res.Panics) == 0 && (res.Outcome == verifsim.OutDeadlock || res.Outcome == verifsim.OutStepLimit) {
+	if res.Outcome == verifsim.OutStepLimit {
+		if w.Level == "L1" {
+			o.Violate("C09/livelock", fmt.Sprintf("run did not finish within %d scheduling steps", res.Steps))
+		} else {
+			o.Inconclusive++ // the interpreter needs many steps; budget exhaustion is not a verdict
+		}
+	}
+	if len(res.Panics) == 0 && res.Outcome == verifsim.OutDeadlock {
 		queued := 0
 		for v := range sent {
 			if recv[v] == 0 {
@@ -471,9 +522,6 @@ func evaluate(o *hx.Outcome, w *W, ops []op, res *verifsim.Result) {
 					o.Violate("C09/close-blocked", "close() never returned")
 				}
 			}
-		}
-		if res.Outcome == verifsim.OutStepLimit {
-			o.Violate("C09/livelock", fmt.Sprintf("run did not finish within %d scheduling steps", res.Steps))
 		}
 		if pendingRecv > 0 && closeReturned {
 			o.Violate("C09/lost-wakeup/receive-after-close", "a receive is still blocked although the channel was closed")
